@@ -243,7 +243,9 @@ EventBad(t, l) ==
       pre == PreOf(t, l)
       post == JConvs(ev.convs)
       r == ApplyOp(pre, ev.op)
-      k == ev.op.k
+      \* non-strict construction is specified (overwrite order) but no property speaks about it: its clauses carry
+      \* their own name so that they are never attributed to C04
+      k == IF ev.op.k = "new" /\ ~ev.op.strict THEN "new_nonstrict" ELSE ev.op.k
       ok == InputsOK(pre, ev.op)
   IN
   (IF ok /\ ~OutMatch(r.out, ev.out) THEN {<<"out", k>>} ELSE {}) \cup
